@@ -256,13 +256,26 @@ Ltac q_frames :=
         | apply Forall2_app; [apply Forall2_Qeq_refl|constructor; [q_div|constructor]] ].
 Ltac q_state :=
   unfold st_eq; cbn [fr cur sz sm];
-  first [ solve [split; [q_frames|split; [first [reflexivity|lia]|split; q_eq]]]
+  first [ solve [split; [q_frames
+                        |split; [first [reflexivity|lia|(rewrite ?app_length; cbn [length]; lia)]
+                                |split; q_eq]]]
         | exfalso; lra ].
 
-Lemma bridge_paa_step L st x : st_eq (gen_paa_step L st x) (paa_step L st x).
+(* The model counts the completed frames in `cur`; the source may keep such a counter or use
+   len(frames) instead.  Both agree on the states the loop can reach: cur = length fr. *)
+Lemma bridge_paa_step L st x : cur st = length (fr st) ->
+  st_eq (gen_paa_step L st x) (paa_step L st x).
 Proof.
-  unfold gen_paa_step, paa_step. destruct st as [f c z a]. cbn [fr cur sz sm]. cbv zeta.
-  q_tests; q_state.
+  unfold gen_paa_step, paa_step. destruct st as [f c z a]. cbn [fr cur sz sm]. intro Hinv.
+  cbv zeta. q_tests; q_state.
+Qed.
+
+(* the invariant is kept by the model's step (a property of Model.v alone) *)
+Lemma paa_step_counts L st x : cur st = length (fr st) ->
+  cur (paa_step L st x) = length (fr (paa_step L st x)).
+Proof.
+  destruct st as [f c z a]. unfold paa_step. cbn [fr cur sz sm]. intro Hinv. cbv zeta.
+  destruct (Qeq_bool _ L); cbn [fr cur]; [rewrite app_length; cbn [length]; lia|exact Hinv].
 Qed.
 
 (* the model's step respects == (a property of Model.v alone) *)
@@ -278,11 +291,14 @@ Proof.
                    |split; [reflexivity|split; rewrite ?Hz, ?Hm; reflexivity]] ].
 Qed.
 
-Lemma bridge_paa_fold L : forall (s : series) a b, st_eq a b ->
+Lemma bridge_paa_fold L : forall (s : series) a b, st_eq a b -> cur b = length (fr b) ->
   st_eq (fold_left (gen_paa_step L) s a) (fold_left (paa_step L) s b).
 Proof.
-  induction s as [|x s IH]; intros a b H; cbn [fold_left]; [exact H|].
-  apply IH. eapply st_eq_trans; [apply bridge_paa_step|apply paa_step_proper; exact H].
+  induction s as [|x s IH]; intros a b H Hinv; cbn [fold_left]; [exact H|].
+  assert (Ha : cur a = length (fr a)).
+  { destruct H as (Hf & Hc & _). rewrite Hc, Hinv. apply eq_sym. eapply Forall2_len. exact Hf. }
+  apply IH; [|apply paa_step_counts; exact Hinv].
+  eapply st_eq_trans; [apply bridge_paa_step; exact Ha|apply paa_step_proper; exact H].
 Qed.
 
 (* the whole per-series algorithm as regenerated: initial state, loop, lost-last-frame repair *)
@@ -295,7 +311,7 @@ Lemma bridge_paa_coded m (s : series) : (1 <= m)%nat ->
   Forall2 Qeq (gen_paa_coded m s) (paa_coded m s).
 Proof.
   intro Hm. unfold gen_paa_coded, paa_coded. cbv zeta. rewrite bridge_paa_len.
-  destruct (bridge_paa_fold (paa_len m s) s paa_init paa_init (st_eq_refl _))
+  destruct (bridge_paa_fold (paa_len m s) s paa_init paa_init (st_eq_refl _) eq_refl)
     as (Hf & Hc & _ & Hs).
   replace (gen_paa_last (zn (cur (fold_left (gen_paa_step (paa_len m s)) s paa_init))) (zn m))
     with (cur (fold_left (paa_step (paa_len m s)) s paa_init) =? m - 1)%nat
